@@ -64,6 +64,26 @@ type SUT struct {
 	lis         *bufconn.Listener
 	delayRouter http.Handler
 	streams     int
+	jobs        map[string]func(context.Context) (int, error)
+}
+
+// JobRunner / SetJobRunner keep one production prune-service instance per
+// (job, minAge, batch) for the lifetime of the SUT: the real service builds
+// its action once and reuses it for every run, and so does the harness.
+func (s *SUT) JobRunner(key string) (func(context.Context) (int, error), bool) {
+	s.mu.Lock()
+	defer s.mu.Unlock()
+	r, ok := s.jobs[key]
+	return r, ok
+}
+
+func (s *SUT) SetJobRunner(key string, r func(context.Context) (int, error)) {
+	s.mu.Lock()
+	defer s.mu.Unlock()
+	if s.jobs == nil {
+		s.jobs = map[string]func(context.Context) (int, error){}
+	}
+	s.jobs[key] = r
 }
 
 // WaitStreamsIdle waits until no streaming handler is running on the server
